@@ -36,4 +36,5 @@ func main() {
 	genPosSpec(info)
 	genPosImpl(info)
 	genWalkImpl(info)
+	genPrintProg(info)
 }
